@@ -93,7 +93,7 @@ let () =
         let op = match name with
           | "backup" -> OBackup ni | "restore" -> ORestore (ni, x) | "restoref" -> ORestoreFile (ni, x) | "sync" -> OSync (ni, order)
           | "export" -> OExport (ni, x) | "import" -> OImport (ni, x) | "merge" -> OMerge (ni, x)
-          | "ubackup" -> OUBackup (ni, x) | "urestore" -> OURestore (ni, x) | "foreign" -> OForeign ni
+          | "ubackup" -> OUBackup (ni, x) | "urestore" -> OURestore (ni, x) | "foreign" -> OForeign ni | "leftover" -> OLeftover (ni, x)
           | _ -> failwith "bad op" in
         let (w', r) = step_ret o inits !g !ver !w op in
         w := w';
